@@ -243,9 +243,17 @@ pub fn gen_history(rng: &mut Rng, o: &LibOpts, max_steps: usize) -> History {
         let new_key = keys.is_empty() || rng.chance(1, 7);
         if new_key {
             let k = loop {
-                let cand = libgen::gen_keys(rng, 1, o.subdirs)[0].replace("n1", &format!("x{}", keys.len() + 1));
+                // sometimes the new note takes a name that existing notes already link to (a dangling target comes alive)
+                let cand = if o.dangling && rng.chance(1, 3) {
+                    format!("missing{}", rng.below(3))
+                } else {
+                    libgen::gen_keys(rng, 1, o.subdirs)[0].replace("n1", &format!("x{}", keys.len() + 1))
+                };
                 if !keys.contains(&cand) {
                     break cand;
+                }
+                if cand.starts_with("missing") && keys.iter().filter(|k| k.starts_with("missing")).count() >= 3 {
+                    break format!("x{}", keys.len() + 1);
                 }
             };
             keys.push(k.clone());
